@@ -205,6 +205,7 @@ def run(cx: Cx):
                          where=cx.where(f, bad[0].lineno))
         else:
             cx.ok('R-ENTROPY', f"{f.name} reads no module-level mutable state", where=cx.where(f), function=f.qualname)
+    _premises(cx)
 
 
 def _is_set_expr(cx, f, e) -> bool:
@@ -225,3 +226,10 @@ def _is_set_expr(cx, f, e) -> bool:
     if isinstance(e, ast.Call) and isinstance(e.func, ast.Attribute) and e.func.attr in ('union', 'intersection', 'difference', 'symmetric_difference'):
         return True
     return False
+
+
+def _premises(cx):
+    from .common import include_premises
+    keep = ('fresh-model-per-run', 'one-score-of-own-model-per-repetition', 'no-module-level-state')
+    include_premises(cx, ['C15', 'C16'], 'a run is reproducible from its seed only if every run and repetition builds its own model',
+                     only=lambda o: any(k in o.key for k in keep))
